@@ -374,10 +374,14 @@ def run_random(ctx, case):
             unit = float(np.asarray(algo.result.freq)[1]) if plot == "FDD" else 0.2 * (fs_[k + 1] - fs_[k])
             x = 0.5 * (fs_[k] + fs_[k + 1]) + float(rng.choice([-1, 1]) * rng.uniform(0.04, 0.46)) * unit
             if fs_[k] < x < fs_[k + 1]:
-                s.click(2, x, -10.0 if plot == "FDD" else 3.0)
+                # ... and only on the abscissa: the click is placed at the height (model order) of the FARTHER of the two poles
+                far = fs_[k + 1] if abs(x - fs_[k]) < abs(x - fs_[k + 1]) else fs_[k]
+                yfar = [c for f_, c in s.model if f_ == far][0]
+                s.click(2, x, -10.0 if plot == "FDD" else float(yfar + rng.uniform(-0.3, 0.3)))
                 ctx.state("deselect-nearest beside the midpoint of two selected frequencies")
         if s.ok and rng.random() < 0.8:
-            s.click(int(rng.choice([2, 2, 3])), float(rng.choice(fn) + rng.uniform(-1, 1)), -10.0 if plot == "FDD" else 3.0)
+            yy = 3.0 if (not s.model or rng.random() < 0.3) else float(s.model[int(rng.integers(0, len(s.model)))][1] + rng.uniform(-0.3, 0.3))
+            s.click(int(rng.choice([2, 2, 3])), float(rng.choice(fn) + rng.uniform(-1, 1)), -10.0 if plot == "FDD" else yy)
         for _ in range(4):
             if not s.ok:
                 break
